@@ -57,6 +57,7 @@ macro_rules! run_pool {
         let t0 = Instant::now();
         let mut events = vec![];
         let mut timed_out = false;
+        let mut last_progress = (0usize, Instant::now());
         loop {
             events.extend(hooks::take_events());
             let taken = events.iter().filter(|e| e.kind == 0).count();
@@ -64,7 +65,11 @@ macro_rules! run_pool {
             if taken >= n_queued && empty {
                 break;
             }
-            if t0.elapsed() > Duration::from_secs(30) {
+            if taken != last_progress.0 {
+                last_progress = (taken, Instant::now());
+            }
+            // the queues are empty and no worker has taken up a packet for 3 s (a packet takes microseconds): what is missing is lost
+            if (empty && last_progress.1.elapsed() > Duration::from_secs(3)) || t0.elapsed() > Duration::from_secs(30) {
                 timed_out = true;
                 break;
             }
